@@ -647,4 +647,152 @@ theorem QInv_drainC {i : SInput} : ∀ (fuel : Nat) {s : CSt}, QInv i s → QInv
     · exact h
     · exact ih (QInv_stepC h _)
 
+/-! ## worker programs, statically -/
+
+theorem progsFrom_length (i : SInput) : ∀ (ws : List Worker) (k : Nat), (progsFrom i k ws).length = ws.length
+  | [], _ => rfl
+  | _ :: ws, k => by simp [progsFrom, progsFrom_length i ws]
+
+theorem progsFrom_getElem? (i : SInput) : ∀ (ws : List Worker) (k j : Nat),
+    (progsFrom i k ws)[j]? = (ws[j]?).map (progOf i (k + j))
+  | [], _, _ => by simp [progsFrom]
+  | w :: ws, k, 0 => by simp [progsFrom]
+  | w :: ws, k, j + 1 => by
+      simp only [progsFrom, List.getElem?_cons_succ]
+      rw [progsFrom_getElem? i ws (k + 1) j]
+      congr 2; omega
+
+theorem progs_getElem? (i : SInput) (w : Nat) : (progs i)[w]? = (i.workers[w]?).map (progOf i w) := by
+  unfold progs; simpa using progsFrom_getElem? i i.workers 0 w
+
+theorem segSteps_append (a b : List Seg) : segSteps (a ++ b) = segSteps a ++ segSteps b := by
+  induction a with
+  | nil => rfl
+  | cons x a ih => cases x <;> simp [segSteps, ih]
+
+theorem stepItems_append (a b : List Step) : stepItems (a ++ b) = stepItems a ++ stepItems b := by
+  simp [stepItems]
+
+theorem stepItems_segSteps_secs (p : List Section) : stepItems (segSteps (p.map Seg.sec)) = [] := by
+  rw [← progSteps_eq_segSteps]; exact stepItems_progSteps p
+
+theorem stepItems_segSteps_puts (xs : List Item) : stepItems (segSteps (xs.map Seg.put)) = xs := by
+  induction xs with
+  | nil => rfl
+  | cons x xs ih => simp [segSteps, stepItems_cons_put, ih]
+
+theorem items_suite (wi : Nat) (w : Worker) : stepItems (segSteps (suiteProg wi w).segs) = [.fin wi] := by
+  unfold suiteProg
+  dsimp only
+  split <;> simp [segSteps_append, stepItems_append, stepItems_segSteps_secs, segSteps, stepItems_cons_put] <;> rfl
+
+theorem items_stream (wi tb : Nat) (w : Worker) :
+    stepItems (segSteps (streamProg wi tb w).segs) = .startRun wi :: ((streamEvents wi tb w).map .status ++ [.stopRun wi]) := by
+  unfold streamProg
+  have : (List.map (fun e => Seg.put (Item.status e)) (streamEvents wi tb w)) = ((streamEvents wi tb w).map Item.status).map Seg.put := by
+    simp
+  simp only [segSteps, stepItems_cons_put, this, segSteps_append, stepItems_append, stepItems_segSteps_puts]
+  rfl
+
+theorem testsEvents_owner (wi : Nat) : ∀ (ts : List WTest) (j : Nat), ∀ e ∈ testsEvents wi j ts, e.w = wi
+  | [], _, e, h => by simp [testsEvents] at h
+  | t :: ts, j, e, h => by
+      simp only [testsEvents, List.mem_cons] at h
+      rcases h with rfl | rfl | h
+      · rfl
+      · rfl
+      · exact testsEvents_owner wi ts (j + 1) e h
+
+theorem fileEvents_owner (wi : Nat) : ∀ (n : Nat), ∀ e ∈ fileEvents wi n, e.w = wi
+  | 0, e, h => by simp [fileEvents] at h; subst h; rfl
+  | 1, e, h => by simp [fileEvents] at h; subst h; rfl
+  | n + 2, e, h => by
+      simp only [fileEvents, List.mem_cons] at h
+      rcases h with rfl | h
+      · rfl
+      · exact fileEvents_owner wi (n + 1) e h
+
+theorem streamEvents_owner (wi tb : Nat) (w : Worker) : ∀ e ∈ streamEvents wi tb w, e.w = wi := by
+  intro e h
+  unfold streamEvents at h
+  rcases List.mem_append.mp h with h | h
+  · exact testsEvents_owner wi _ _ e h
+  · split at h
+    · simp only [brokenEvents, List.mem_cons, List.mem_append] at h
+      rcases h with rfl | h | h
+      · rfl
+      · exact fileEvents_owner wi tb e h
+      · simp at h; subst h; rfl
+    · cases h
+
+/-- the items of worker `wi`: plain items followed by its final item, all its own -/
+theorem items_good (i : SInput) (wi : Nat) (w : Worker) :
+    GoodT (lastItem i wi) wi (stepItems (segSteps (progOf i wi w).segs)) := by
+  cases hf : i.flavour with
+  | suite =>
+    simp only [progOf, lastItem, hf]
+    rw [items_suite]
+    exact ⟨Or.inr ⟨[], rfl, by simp⟩, by intro x hx; simp at hx; subst hx; rfl⟩
+  | stream =>
+    simp only [progOf, lastItem, hf]
+    rw [items_stream]
+    refine ⟨Or.inr ⟨.startRun wi :: (streamEvents wi i.tb w).map .status, by simp, ?_⟩, ?_⟩
+    · intro y hy
+      simp at hy
+      rcases hy with rfl | ⟨e, _, rfl⟩ <;> rfl
+    · intro x hx
+      simp at hx
+      rcases hx with rfl | ⟨e, he, rfl⟩ | rfl
+      · rfl
+      · exact streamEvents_owner wi i.tb w e he
+      · rfl
+
+theorem segs_lastIsPut (i : SInput) (wi : Nat) (w : Worker) : LastIsPut (segSteps (progOf i wi w).segs) ∧ segSteps (progOf i wi w).segs ≠ [] := by
+  have : ∃ pre x, (progOf i wi w).segs = pre ++ [Seg.put x] := by
+    cases hf : i.flavour with
+    | suite =>
+      simp only [progOf, hf]
+      unfold suiteProg; dsimp only; split <;> exact ⟨_, _, rfl⟩
+    | stream =>
+      simp only [progOf, hf]
+      unfold streamProg
+      exact ⟨.put (.startRun wi) :: (streamEvents wi i.tb w).map (fun e => Seg.put (.status e)), .stopRun wi, by simp⟩
+  obtain ⟨pre, x, h⟩ := this
+  rw [h, segSteps_append]
+  exact ⟨Or.inr ⟨segSteps pre, x, by simp [segSteps]⟩, by simp [segSteps]⟩
+
+theorem wpc_init (i : SInput) (b : St) (hb : b.pcs = [] :: (progs i).map fun p => segSteps p.segs) (s : CSt) (hs : s.base = b)
+    (w : Nat) (wk : Worker) (hw : i.workers[w]? = some wk) : wpc s w = segSteps (progOf i w wk).segs := by
+  simp [wpc, hs, hb, progs_getElem?, hw]
+
+theorem QInv_init (i : SInput) : QInv i (initC i) := by
+  unfold initC
+  refine QInv_nextSpawn ?_ (by simp) 0 rfl
+  have hwk : ∀ w, w < i.workers.length → ∃ wk, i.workers[w]? = some wk := fun w hw => ⟨i.workers[w], by simp [hw]⟩
+  refine ⟨by simp [progs, progsFrom_length], Nat.zero_le _, ?_, ?_, ?_, ?_, rfl, ?_, List.nodup_nil, ?_, ?_, ?_, ?_, ?_⟩
+  · intro w hw
+    obtain ⟨wk, hwk⟩ := hwk w hw
+    have := wpc_init i _ rfl { base := { pcs := [] :: (progs i).map fun p => segSteps p.segs }, flags := i.workers.map fun _ => false } rfl w wk hwk
+    simp only [todoItems, this, projQ, List.filter_nil, List.nil_append]
+    exact items_good i w wk
+  · intro w hw
+    obtain ⟨wk, hwk⟩ := hwk w hw
+    rw [wpc_init i _ rfl _ rfl w wk hwk]
+    exact (segs_lastIsPut i w wk).1
+  · intro w _ hw
+    obtain ⟨wk, hwk⟩ := hwk w hw
+    rw [wpc_init i _ rfl _ rfl w wk hwk]
+    exact (segs_lastIsPut i w wk).2
+  · intro x hx; cases hx
+  · intro w; simp
+  · intro w hw; cases hw
+  · intro w hw; exact absurd hw (Nat.not_lt_zero _)
+  · intro k hk; simp at hk
+  · intro hg; simp at hg
+  · intro w hw; simp at hw
+
+/-- the invariant holds in every state the model's run passes through -/
+theorem QInv_final (i : SInput) : QInv i (finalC i) :=
+  QInv_drainC _ (QInv_runC _ (QInv_init i))
+
 end TTV.Conc
